@@ -243,7 +243,9 @@ func ParseEv(l Line) Ev {
 		if u := reUID.FindStringSubmatch(m[2]); u != nil {
 			e.UID, _ = strconv.Atoi(u[1])
 		}
-		if f := reFlags.FindStringSubmatch(m[2]); f != nil {
+		// a FETCH response may carry FLAGS twice (requested item + the implicit \Seen): the last one is current
+		if all := reFlags.FindAllStringSubmatch(m[2], -1); len(all) > 0 {
+			f := all[len(all)-1]
 			e.HasFl = true
 			for _, x := range strings.Fields(f[1]) {
 				e.Flags = append(e.Flags, strings.ToLower(x))
